@@ -339,7 +339,9 @@ func RunCase(c *Case) (r result) {
 	ctx := context.Background()
 	feats := api.CoreFeatures(c.Features)
 	for _, eng := range wz.Engines {
-		cfg := wz.Config(eng).WithCoreFeatures(feats).WithCloseOnContextDone(true)
+		// (a memory limit of 128 MiB: an accepted module may declare a minimum of up to 4 GiB, which both
+		// engines would allocate and zero at instantiation in each of the 16 shards)
+		cfg := wz.Config(eng).WithCoreFeatures(feats).WithCloseOnContextDone(true).WithMemoryLimitPages(2048)
 		rt := wazero.NewRuntimeWithConfig(ctx, cfg)
 		var ms0, ms1 runtime.MemStats
 		runtime.ReadMemStats(&ms0)
@@ -798,7 +800,8 @@ func danglingIndex(t *rapid.T, c *wasmenc.Module) ([]byte, string, bool) {
 	b := wasmenc.NewB()
 	kind := rapid.SampledFrom([]string{"ref.func+declare", "ref.func+declare", "ref.func+declare", "ref.func", "call", "global.get", "local.get", "br", "call_indirect-type", "call_indirect-table", "table.get", "elem.drop", "data.drop", "export", "start", "elem-item", "callee-type", "callee-type", "block-type", "block-type", "memop-no-memory", "memop-no-memory", "memop-no-memory", "padded-immediate", "padded-immediate", "elem-expr", "elem-expr", "elem-expr",
 		"if-noelse-type", "if-noelse-type", "if-noelse-type", "call_indirect-elemtype", "call_indirect-elemtype", "call_indirect-elemtype",
-		"call_indirect-sigpair", "call_indirect-sigpair", "call_indirect-sigpair"}).Draw(t, "dangling")
+		"call_indirect-sigpair", "call_indirect-sigpair", "call_indirect-sigpair",
+		"import-type", "import-type", "import-type"}).Draw(t, "dangling")
 	valid := false
 	var dangleParams []byte
 	switch kind {
@@ -852,6 +855,54 @@ func danglingIndex(t *rapid.T, c *wasmenc.Module) ([]byte, string, bool) {
 			for range rs {
 				b.Drop()
 			}
+		}
+	case "import-type":
+		// a function import whose type index lies at or beyond the end of the type section (or
+		// in a module without any type), referenced by the start section, an export, an element
+		// segment, ref.func or a call: whatever looks at an import's type must range-check it
+		// (sections are validated in an order of their own, not in binary order)
+		c.Imports = append(append([]wasmenc.Import{}, c.Imports...), wasmenc.Import{Mod: "env", Name: "dangling-type", Kind: wasmenc.KFunc, Desc: wasmenc.U32(at(uint32(len(c.Types)) + 1))})
+		// the new import takes the function index nimp: every module-defined function moves up by
+		// one, so the other functions are replaced by one that does not name any function index
+		imp := nimp
+		c.Funcs, c.Elems, c.Start = nil, nil, nil
+		var e []wasmenc.Export
+		for _, x := range c.Exports {
+			if x.Kind != wasmenc.KFunc {
+				e = append(e, x)
+			}
+		}
+		c.Exports = e
+		var gl []wasmenc.Global
+		for _, g := range c.Globals {
+			if g.Type != wasmenc.FuncRef {
+				gl = append(gl, g)
+			}
+		}
+		if len(gl) != len(c.Globals) {
+			// (global indices would shift: drop the global exports as well)
+			var e2 []wasmenc.Export
+			for _, x := range c.Exports {
+				if x.Kind != wasmenc.KGlobal {
+					e2 = append(e2, x)
+				}
+			}
+			c.Exports, c.Globals = e2, gl
+		}
+		nimp++
+		switch rapid.IntRange(0, 4).Draw(t, "importuse") {
+		case 0:
+			c.Start = wasmenc.P(imp)
+		case 1:
+			c.Exports = append(c.Exports, wasmenc.Export{Name: "reexport", Kind: wasmenc.KFunc, Idx: imp})
+		case 2:
+			c.Elems = append(c.Elems, wasmenc.DeclElemFuncs([]uint32{imp}))
+			b.RefFunc(imp).Drop()
+		case 3:
+			b.Call(imp)
+		default:
+			c.Start = wasmenc.P(imp)
+			c.Types = nil // no type section at all (the added function's type follows below)
 		}
 	case "call_indirect-sigpair":
 		// a valid module: slot 0 of a new funcref table holds a function of type A, the added
@@ -1181,7 +1232,7 @@ func memInstr(t *rapid.T, b *wasmenc.B) {
 }
 
 func insMutation(t *rapid.T, m *wasmgen.Module) ([]byte, string) {
-	in, op := wasmgen.MutateIns(t, m)
+	in, op := wasmgen.MutateIns(t, m, false)
 	evid.Label("instruction-mutation:"+op, 1)
 	return in, "ins-" + op
 }
